@@ -58,6 +58,8 @@ def model_jobs(tier):
         ("bom", "SerdeMC", "SerdeMC_bom.cfg" if q else subst_cfg("SerdeMC_bom.cfg", "bom.cfg", MaxLines="3"), {}),
         # every way of not producing a value x stand-alone / spec-backed datasource
         ("outcomes", "SerdeMC", "SerdeMC_outcomes.cfg", {}),
+        # a filterable spec with a max-match budget: several elements, every line matches, within the budget
+        ("filtered", "SerdeMC", "SerdeMC_filtered.cfg", {}),
         ("multi", "SerdeMC", "SerdeMC_multi.cfg" if q else subst_cfg("SerdeMC_multi.cfg", "multi.cfg", MaxElems="3"), {}),
         ("faults", "SerdeMC", "SerdeMC_faults.cfg" if q else subst_cfg("SerdeMC_faults.cfg", "faults.cfg", Kinds=all_kinds), {}),
         # every hydration order of three entries under every corruption (model only)
@@ -67,6 +69,8 @@ def model_jobs(tier):
         # RoundTrip can fail: results assembled in the pool's completion order violate it
         ("neg-points-only", "Serde", subst_cfg("SerdeMC_outcomes.cfg", "negr.cfg", RecordMode='"points-only"', N="1",
                                                Modes="{}", MaxFaults="0", drop=["CONSTRAINT Emit"]), {}),
+        ("neg-shared-budget", "Serde", subst_cfg("SerdeMC_filtered.cfg", "negb.cfg", BudgetMode='"shared"',
+                                                 drop=["CONSTRAINT Emit"]), {}),
         ("neg-completion", "Serde", subst_cfg("Serde_orders.cfg", "negc.cfg", AssembleMode='"completion"', N="1",
                                               MaxElems="2", PoolSet="{TRUE}", Modes="{}", MaxFaults="0"), {}),
     ]
@@ -81,7 +85,8 @@ def run_models(tier):
         r = lib.run_tlc(mod, cfg, workers=4, tag="serde-" + name, timeout=1800, raw_cases=True,
                         coverage=(name in ("faults", "multi")), **kw)
         if name.startswith("neg-"):
-            want = {"neg-completion": "RoundTrip", "neg-points-only": "ErrorsPersisted"}[name]
+            want = {"neg-completion": "RoundTrip", "neg-points-only": "ErrorsPersisted",
+                    "neg-shared-budget": "RoundTrip"}[name]
             if r.violation != want:
                 raise lib.MachineryError("model %s: expected TLC to find a violation of %s for the transcription of "
                                          "the flawed design, got violation=%s error=%s"
@@ -148,6 +153,7 @@ def run(prop, tier):
                      ("metadata documents with errors were written", stats.get("docs_with_errors", 0) > 0),
                      ("data files were written", stats.get("datafiles", 0) > 0),
                      ("archives were damaged", stats.get("faults", 0) > 0),
+                     ("filterable specs with a budget were persisted and loaded", stats.get("filtered", 0) > 0),
                      ("stand-alone and spec-backed datasources failed", stats.get("failed_alone", 0) > 0 and
                       stats.get("failed_backed", 0) > 0),
                      ("archives were persisted with a thread pool", stats.get("pooled", 0) > 0),
@@ -221,11 +227,12 @@ def selftest_traces(traces):
     the change breaks."""
     a1 = {"shape": "str", "v": ["a1"]}
     a2 = {"shape": "str", "v": ["a2"]}
-    comps = [dict(kind="text", multi=False, failed=False, outcome="ok", backed=True, saveas="none",
+    comps = [dict(kind="text", multi=False, failed=False, outcome="ok", backed=True, filtered=False, saveas="none",
                   elems=[_elem([["p1"], [], ["n1"], []])]),
-             dict(kind="command", multi=True, failed=False, outcome="ok", backed=False, saveas="none",
+             dict(kind="command", multi=True, failed=False, outcome="ok", backed=False, filtered=False, saveas="none",
                   elems=[_elem([["p2"]], "/bin/echo 1", a1), _elem([["b2"], ["L2"]], "/bin/echo 2", a2)]),
-             dict(kind="none", multi=False, failed=True, outcome="timeout", backed=False, saveas="none", elems=[])]
+             dict(kind="none", multi=False, failed=True, outcome="timeout", backed=False, filtered=False, saveas="none",
+                  elems=[])]
 
     def doc(name, nerr, res, multi):
         return dict(present=True, readable=True, shape=True, name=name, nerrors=nerr, hasres=bool(res), multi=multi,
